@@ -6,6 +6,9 @@ from .params import *
 
 E = '(*' + MOD + '.Element).'
 ELEMENT_SUMM = [
+    # the formula functions themselves, should the ladder call them directly (same contract: what C02 proves about Add / Double)
+    {'fn': E + 'addProjectiveComplete', 'op': 'padd', 'params': ['out', 'in', 'in'], 'results': ['p0']},
+    {'fn': E + 'doubleProjectiveComplete', 'op': 'pdbl', 'params': ['out', 'in'], 'results': ['p0']},
     {'fn': E + 'Add', 'op': 'padd', 'params': ['inout', 'in'], 'results': ['p0']},
     {'fn': E + 'Double', 'op': 'pdbl', 'params': ['inout'], 'results': ['p0']},
     {'fn': E + 'copy', 'op': 'pcopy', 'params': ['in'], 'results': ['new']},
@@ -87,3 +90,26 @@ class DLogLower(BVLower):
             if nm == 'pzero':
                 return [], '0'
         return super().body(i, n)
+
+
+def ladder_orientation(harness_files, summaries):
+    """direction of the ladder's loop counter, read from the code: ('down', 255, -1) for `for i := 255; i >= 0; i--`, ('up', 0, 256) for a
+    loop that counts 0..255 and indexes the bits from the top.  (entry value of the only integer phi of the loop header; the per-iteration
+    obligations then use bit 255 - counter for an ascending loop)"""
+    from . import core
+    from .params import MOD
+    try:
+        r = core.symx(harness_files, [{'id': 'orient', 'harness': 'vh_multiply', 'summaries': summaries, 'cut': {'fn': '(*' + MOD + '.Element).multiply', 'loop': 0, 'mode': 'havoc', 'phis': {}}}])[0]
+        for p in r.paths:
+            ph = p['obs'].get('cut:phis') or {}
+            for name, v in ph.items():
+                n = r.nodes[v['entry']]
+                if n['op'] == 'const':
+                    val = int(n['v'])
+                    if val == 0:
+                        return ('up', 0, 256, name)
+                    if val == 255:
+                        return ('down', 255, -1, name)
+    except Exception:
+        pass
+    return ('down', 255, -1, 'i')
